@@ -1,5 +1,7 @@
 (* C07 — obligations re-decided by the kernel for the tables generated from /repo on this run. *)
-From S2T Require Import Lib.PyStr C07.Model Gen.C07Tables.
+From S2T Require Import Lib.PyStr C07.Model C07.Tail Gen.C07Tables.
+From Coq Require Import List NArith.
+Import ListNotations.
 
 (* premise of every theorem of C07/Props.v *)
 Theorem C07_tables_wf : wf T = true.
@@ -25,3 +27,14 @@ Theorem C07_alias_compound_consistent :
       then str_eqb (snd cf) (snd ab) else true) (compound T)) (aliases T) = true.
 Proof. vm_compute. reflexivity. Qed.
 Print Assumptions C07_alias_compound_consistent.
+
+(* white space, line ends and URL/shell leftovers after the extension: for today's tables none of them is the last
+   character of a routing key, so (by C07_trailing_char_unsupported) a path ending in one of them is unsupported for
+   both entry points when the MIME database has no opinion.  TAB LF VT FF CR FS GS RS US SPACE NEL NBSP LS PS NUL
+   and the ASCII punctuation  # % & ; : ? @ backslash ~ braces brackets parentheses * $ ! = , and both quotes *)
+Definition trailing_chars : list N :=
+  [9; 10; 11; 12; 13; 28; 29; 30; 31; 32; 133; 160; 8232; 8233; 0;
+   35; 37; 38; 59; 58; 63; 64; 92; 126; 123; 125; 91; 93; 40; 41; 42; 36; 33; 61; 44; 39; 34]%N.
+Theorem C07_trailing_chars_ok : forallb (fun c => tail_ok c T) trailing_chars = true.
+Proof. vm_compute. reflexivity. Qed.
+Print Assumptions C07_trailing_chars_ok.
